@@ -198,6 +198,12 @@ class C01(Property):
                     else:
                         out.append([{"part": "trie", "shape": shape, "variant": variant, "module": m,
                                      "tol": t, "cff": v, "d": b["trie_depth"], "palette": b["palette"]}])
+        # contours and points that carry identifiers (unique within each glyph, as the UFO
+        # specification demands; the same strings recur in other glyphs)
+        for shape, variant, m, v in itertools.product(("tri", "mixed"), ("pure", "mixed", "shared"),
+                                                      ("ufoLib2", "defcon"), (1, 2)):
+            out.append([{"part": "trie", "shape": shape, "variant": variant, "module": m, "tol": None,
+                         "cff": v, "d": 2, "palette": B.QUICK_TRANSFORMS, "ident": 1}])
         for shape, d in b["deep"]:
             for variant in ("pure", "mixed"):
                 out.append([{"part": "trie", "shape": shape, "variant": variant, "module": "ufoLib2",
@@ -220,7 +226,12 @@ class C01(Property):
 
     def make_glyphs(self, c):
         if c["part"] == "trie":
-            return trie_glyphs(c["shape"], c["variant"], c["palette"], c["d"])
+            glyphs = trie_glyphs(c["shape"], c["variant"], c["palette"], c["d"])
+            if c.get("ident"):
+                for g in glyphs.values():
+                    if g.get("contours"):
+                        g["identifiers"] = True
+            return glyphs
         if c["part"] == "dev":
             return deviation_glyphs(c["shape"], c["k"])
         return width_glyphs()
